@@ -12,6 +12,10 @@ CLAIMED = {
          "Decides the structural necessary condition of C18 — no concurrent entry point (every method of every product type implementing a primitive/key/parameters interface, exported methods of Handle/Entry/prf.Set/PrefixMap, registry lookups: ~560 functions) writes memory reachable from the shared receiver or from a module package-level variable, including appends onto field slices and receiver-mutating stdlib methods on objects reachable from the receiver; plus lock discipline for the globals written after initialisation. Modulo the stdlib contract table this is also sufficient for race freedom of the library's own memory. Schedules themselves are not explored.",
          "Trusted: go/types+go/ssa; stdlib contract table incl. which stdlib objects are stateful; sync.Mutex/RWMutex/Map, atomic and crypto/rand.Reader are synchronised; user-supplied loggers/KMS clients/io objects are out of scope.",
          "DESIGN.md §4 C18, §2 engine B"),
+ "C11": ("census of all writers of manager state (per-instruction write sets) + CFG reachability to failing returns + dominance/path facts on status/isPrimary/ID guards + range-loop shape",
+         "Discharges, over all writers of the Manager's state found by census, the side conditions of the inductive argument for the keyset invariant: atomicity of failing operations (no state write can be followed by a definitely-failing return), ID freshness/recording at every append site and in newRandomKeyID/NewManagerFromHandle/WithFixedID/Add, primary=>Enabled and non-primary-before-disable/delete guards on the same entry object, complete clearing loops after a primary is set, isolation of Handle()/NewManagerFromHandle() results (no shared entries slice or entry objects). It is a structural proof-obligation list, not an exploration of operation histories.",
+         "Trusted: go/ssa; the hand argument from the listed side conditions to the invariant; idioms recognised (if-guards, range loops, comma-ok map lookups).",
+         "DESIGN.md §4 C11"),
 }
 
 NOT_APPLICABLE = {
